@@ -628,3 +628,14 @@ def _elt_from_len(before_take=False, brk=""):
             self.bitmap.mark_dirty(0, copied * self.element_size());"""
 m("x7-len-mark-before-take", "C05,C16", VM, _ELT_FROM_ORIG, _elt_from_len(before_take=True), "?")
 m("x7-len-mark-loop-breaks", "C05,C16", VM, _ELT_FROM_ORIG, _elt_from_len(brk="if i >= 3 { break; }"), "?")
+
+# the page loop as `for n in (first..=last).take_while(pred)` (accepted since the corrected twins of round 8), each with one defect
+_PL_ORIG = """        for n in first_bit..=last_bit {
+            if n >= self.size {
+                // Attempts to set bits beyond the end of the bitmap are simply ignored.
+                break;
+            }"""
+def _pl(pred="n < self.size"):
+    return f"""        for n in (first_bit..=last_bit).take_while(|&n| {pred}) {{"""
+m("x7-take-while-le-size", "C09", AB, _PL_ORIG, _pl("n <= self.size"), "R9.1.guard")
+m("x7-take-while-word-capacity", "C09", AB, _PL_ORIG, _pl("n < self.map.len() * 64"), "R9.1.guard")
